@@ -137,7 +137,7 @@ def container(F, R):
             for lab, tgt in errs:
                 # from the Err arm, the next element / return is reachable only via the equality test block (a switch on `==`)
                 eq_sw = [upd.term_site(bb) for bb in range(len(upd.blocks)) if upd.blocks[bb]['t'][0] == 'switch' and
-                         '==' in sym_nstr(sym(upd, upd.blocks[bb]['t'][1])) and 'element_generation_counter' in sym_nstr(sym(upd, upd.blocks[bb]['t'][1]))]
+                         re.search(r' (==|!=) ', sym_nstr(sym(upd, upd.blocks[bb]['t'][1]))) and 'element_generation_counter' in sym_nstr(sym(upd, upd.blocks[bb]['t'][1]))]
                 pth = upd.exists_path(core.Site(upd, tgt, -1, ['arm']), upd.ret_sites() + sites_of(ld), eq_sw)
                 ok = pth is None and bool(eq_sw)
                 detail = 'from the CAS-Err arm the element is left only through the `counter == recorded` test%s' % ('' if pth is None else ' -- bypass %s' % pth)
@@ -167,7 +167,7 @@ def container(F, R):
     # ------------------------------------------------------------- parity test
     cd = F.fn(C + 'contains_data')
     t = sym_nstr(core.sym_place(cd, [0]))
-    R.ob('SYM-EQ', 'SYM-EQ::%s::parity' % fnkey(cd), t in ('(1 == (generation_counter % 2))', '((generation_counter % 2) == 1)'), 'contains_data = %s ; required generation_counter %% 2 == 1' % t, '%s:%s' % (cd.file, cd.line), cd)
+    R.ob('SYM-EQ', 'SYM-EQ::%s::parity' % fnkey(cd), lib.canon(cd, t) in ('(1 == ($1 % 2))', '(($1 % 2) == 1)'), 'contains_data = %s ; required generation_counter %% 2 == 1' % t, '%s:%s' % (cd.file, cd.line), cd)
     users = set(s.fn.id for s in F.callers_of(r'Container::<T>::contains_data$'))
     R.floor('contains_data users', len(users), 3)
     # nobody re-implements the parity test on the element counter
